@@ -125,7 +125,7 @@ def check_greedy(run, A):
             fl = flat_src.args[0]
             if is_call_to(fl, 'method:reshape'):
                 recv = call_arg(fl, 0)          # NOT stripped: a .copy() here would decouple the view
-                ok_view = retire_row is not None and _chain_root(retire_row[0].term.args[0]) is recv
+                ok_view = retire_row is not None and _view_root(retire_row[0].term.args[0]) is recv
         run.check(ok_view, 'R-SEL', 'greedy assignment: arg-max sees the retired entries (flattened view of the same matrix)', fn.loc(unravel.node), '',
                   'the matrix searched by argmax is not a view of the matrix in which rows / columns are retired', construct=f'R-SEL::{q}::view')
     # K picks per matrix
@@ -344,6 +344,21 @@ def _chain_root(t):
     """peel loop-carried values and stores (no copy stripping): the array object the chain started from"""
     while isinstance(t, T) and t.op in ('mu', 'store', 'refine'):
         t = t.args[0]
+    return t
+
+
+def _view_root(t):
+    """like _chain_root, and through basic-index views (x[f] with f a loop index is a view of x): the array object that a store finally writes to"""
+    for _ in range(20):
+        t = _chain_root(t)
+        if isinstance(t, T) and t.op == 'sub':
+            idx = t.args[1]
+            items = list(idx.args[0]) if idx.op == 'tuple' else [idx]
+            basic = all(strip_views(x).op in ('elem', 'slice', 'star', 'unpack') or const_val(strip_views(x)) is Ellipsis or isinstance(const_val(strip_views(x)), int) for x in items)
+            if basic:
+                t = t.args[0]
+                continue
+        return t
     return t
 
 
